@@ -3,15 +3,6 @@ From SF Require Export C05.Class.
 From Coq Require Import Arith Lia.
 Open Scope nat_scope.
 
-(** results closed on both sides, at the SQL level *)
-Definition bclosed (e : sexpr) : bool :=
-  match e with
-  | SCol _ | SLit _ | SParen _ | SCase _ | SCast _ _ | SCall2 _ _ _ | SCall3 _ _ _ _ => true
-  | SNeg (SParen _) => true
-  | SBracket (SCol _) _ => true
-  | _ => false
-  end.
-
 (** weakest operator on the left spine: the context [m] must not exceed it *)
 Fixpoint lvl (e : sexpr) : nat :=
   match e with
@@ -53,22 +44,28 @@ Proof.
   induction e; cbn [rstop]; unfold L_CLOSED, L_NOT, L_UMINUS, L_BIL in *; try lia.
 Qed.
 
-Lemma bclosed_wrap_true e : bclosed e = true \/ is_open e = true -> bclosed (wrap true e) = true.
+Lemma bclosed_wrap_true e : bclosed e = true \/ is_open e = true -> bclosed (wrap WAll e) = true.
 Proof.
-  intros [H|H]; unfold wrap; cbn [andb]; destruct (is_open e) eqn:E; auto. discriminate.
+  intros [H|H]; unfold wrap; destruct (is_open e) eqn:E; auto. discriminate.
 Qed.
 
+Lemma wrap_cases w e : wrap w e = e \/ wrap w e = SParen e.
+Proof. unfold wrap. destruct w; try destruct (is_open e); try destruct (is_open_conn e); auto. Qed.
+
 Lemma safe_wrap w e : safe 1 false e = true -> safe 1 false (wrap w e) = true.
-Proof. intro H. unfold wrap. destruct (w && is_open e); auto. Qed.
+Proof. intro H. destruct (wrap_cases w e) as [E|E]; rewrite E; auto. Qed.
 
 Lemma wrap_keeps w e m : safe m false e = true -> safe 1 false e = true ->
   safe m false (wrap w e) = true /\ rstop e <= rstop (wrap w e) /\ lvl e <= lvl (wrap w e).
 Proof.
-  intros Hm H1. unfold wrap. destruct (w && is_open e).
+  intros Hm H1. destruct (wrap_cases w e) as [E|E]; rewrite E.
+  - repeat split; auto.
   - cbn [safe rstop lvl]. pose proof (rstop_le e). repeat split; auto.
     clear. induction e; cbn [lvl]; unfold L_CLOSED, L_IS, L_BIL, L_BRACK in *; lia.
-  - repeat split; auto.
 Qed.
+
+Lemma is_wall_wb b : is_wall (wb b) = b.
+Proof. destruct b; reflexivity. Qed.
 
 Section WithCfg.
 Variable c : cfg.
@@ -87,14 +84,13 @@ Proof.
   - auto.
   - destruct t; try discriminate. reflexivity.
   - destruct t1; try discriminate. reflexivity.
+  - assumption.
 Qed.
 
-Lemma mkbin_kind bf x y : bf_paren bf = true \/ is_open (SBin (bf_cls bf) x y) = true ->
-  bclosed (mkbin bf x y) = true \/ is_open (mkbin bf x y) = true.
+Lemma mkbin_kind bf x y : bclosed (mkbin bf x y) = true \/ is_open (mkbin bf x y) = true.
 Proof.
-  intros [H|H]; [left; apply mkbin_paren; exact H|].
   unfold mkbin. destruct (bf_paren bf); [left; reflexivity|]. right.
-  destruct (bf_self_left bf); cbn [is_open] in *; exact H.
+  destruct (bf_self_left bf); reflexivity.
 Qed.
 
 (** what the builder returns is either closed on both sides or one of the classes _operand parenthesises *)
@@ -103,30 +99,29 @@ Proof.
   destruct (ok_un c Hok) as [Eneg Enot]. destruct (ok_names c Hok) as (EL & EIL & _).
   destruct (ok_nse c Hok) as (N1 & N2 & N3).
   induction t; cbn [in_class build]; intro Hi; bsplit; try (left; reflexivity); try (right; reflexivity).
-  - destruct (ok_fwd c Hok o) as (F1 & F2 & F3 & F4). apply mkbin_kind. rewrite F1.
-    destruct (is_arith o || is_logic o) eqn:E; [left; apply F4; reflexivity|].
-    right. destruct o; try discriminate; reflexivity.
-  - destruct (ok_rev c Hok o ltac:(assumption)) as (F1 & F2 & F3 & F4). left. apply mkbin_paren. apply F4.
-    assumption.
-  - apply mkbin_kind. rewrite N1. right. reflexivity.
+  - apply mkbin_kind.
+  - apply mkbin_kind.
+  - apply mkbin_kind.
   - left. rewrite Eneg. reflexivity.
   - right. rewrite Enot. reflexivity.
-  - right. rewrite EL. reflexivity.
-  - right. rewrite EIL. reflexivity.
   - auto.
   - left. destruct t; try discriminate. reflexivity.
   - left. destruct t1; try discriminate. reflexivity.
+  - match goal with E : _ || _ = true |- _ => apply orb_true_iff in E; exact E end.
 Qed.
 
-Lemma operand_bclosed w t : w || closed t = true -> in_class c t = true -> bclosed (wrap w (build c t)) = true.
+Lemma bclosed_wrap_any w e : bclosed e = true -> bclosed (wrap w e) = true.
+Proof. intro H. destruct (wrap_cases w e) as [E|E]; rewrite E; auto. Qed.
+
+Lemma operand_bclosed w t : is_wall w || closed t = true -> in_class c t = true -> bclosed (wrap w (build c t)) = true.
 Proof.
-  intros H Hi. destruct w.
-  - apply bclosed_wrap_true. apply built_kind. exact Hi.
-  - cbn [orb] in H. unfold wrap. cbn [andb]. apply closed_bclosed; assumption.
+  intros H Hi. destruct (is_wall w) eqn:W.
+  - destruct w; try discriminate. apply bclosed_wrap_true. apply built_kind. exact Hi.
+  - cbn [orb] in H. apply bclosed_wrap_any. apply closed_bclosed; assumption.
 Qed.
 
 (** an operand that went through _operand, or is closed anyway: safe in every operand context *)
-Lemma operand_ok w t : w || closed t = true -> in_class c t = true -> safe 1 false (build c t) = true ->
+Lemma operand_ok w t : is_wall w || closed t = true -> in_class c t = true -> safe 1 false (build c t) = true ->
   forall m bm, m <= 12 ->
   safe m bm (wrap w (build c t)) = true /\ 12 <= rstop (wrap w (build c t)) /\ 13 <= lvl (wrap w (build c t)).
 Proof.
@@ -167,19 +162,19 @@ Proof.
       try (apply operand_bclosed; assumption).
     rewrite N1 in A, B. unfold rs in B; simpl in A, B; split; lia.
   - (* UNot *) rewrite Enot. cbn [mkun uf_paren uf_not lvl rstop]. unfold L_CLOSED, L_NOT. split; lia.
-  - (* UIsNull *) destruct (bclosed_levels _ (operand_bclosed _ t ltac:(eassumption) ltac:(assumption))).
+  - (* UIsNull *) destruct (bclosed_levels _ (operand_bclosed (wb (c_pred_opwrap c)) t ltac:(rewrite is_wall_wb; assumption) ltac:(assumption))).
     cbn [lvl rstop]. unfold L_CLOSED, L_IS. split; lia.
   - (* UIsNotNull *) destruct (c_isnotnull_paren c); cbn [lvl rstop]; unfold L_CLOSED, L_NOT; split; lia.
-  - (* UIsin *) destruct (bclosed_levels _ (operand_bclosed _ t ltac:(eassumption) ltac:(assumption))).
+  - (* UIsin *) destruct (bclosed_levels _ (operand_bclosed (wb (c_pred_opwrap c)) t ltac:(rewrite is_wall_wb; assumption) ltac:(assumption))).
     cbn [lvl rstop]. unfold L_CLOSED, L_BIL. split; lia.
   - (* UBetween *)
-    assert (B1 : bclosed (wrap (c_pred_opwrap c) (build c t1)) = true) by (apply operand_bclosed; assumption).
-    assert (B3 : bclosed (wrap (c_pred_opwrap c) (build c t3)) = true) by (apply operand_bclosed; assumption).
+    assert (B1 : bclosed (wrap (wb (c_pred_opwrap c)) (build c t1)) = true) by (apply operand_bclosed; [rewrite is_wall_wb|]; assumption).
+    assert (B3 : bclosed (wrap (wb (c_pred_opwrap c)) (build c t3)) = true) by (apply operand_bclosed; [rewrite is_wall_wb|]; assumption).
     destruct (bclosed_levels _ B1), (bclosed_levels _ B3).
     cbn [lvl rstop]. unfold L_BIL. split; lia.
-  - (* ULike *) destruct (bclosed_levels _ (operand_bclosed _ t ltac:(eassumption) ltac:(assumption))). rewrite EL.
+  - (* ULike *) destruct (bclosed_levels _ (operand_bclosed (wb (c_pred_opwrap c)) t ltac:(rewrite is_wall_wb; assumption) ltac:(assumption))). rewrite EL.
     cbn [lvl rstop]. unfold rs, L_CLOSED; cbn [blvl nonassoc]. split; lia.
-  - (* UILike *) destruct (bclosed_levels _ (operand_bclosed _ t ltac:(eassumption) ltac:(assumption))). rewrite EIL.
+  - (* UILike *) destruct (bclosed_levels _ (operand_bclosed (wb (c_pred_opwrap c)) t ltac:(rewrite is_wall_wb; assumption) ltac:(assumption))). rewrite EIL.
     cbn [lvl rstop]. unfold rs, L_CLOSED; cbn [blvl nonassoc]. split; lia.
   - (* UAlias *) auto.
 Qed.
@@ -237,14 +232,14 @@ Proof.
     destruct (ok_rev c Hok o ltac:(assumption)) as (F1 & F2 & F3 & F4).
     rewrite F3, pylit_true, safe_mkbin_rev by assumption.
     rewrite F1. destruct (blvl_pos (uop_bop o)) as [P1 P2]. ih H Sb.
-    assert (Wl : forall w0 v0, wrap w0 (SLit v0) = SLit v0) by (intros w0 v0; unfold wrap; rewrite andb_false_r; reflexivity).
+    assert (Wl : forall w0 v0, wrap w0 (SLit v0) = SLit v0) by (intros w0 v0; destruct w0; reflexivity).
     rewrite Wl. cbn [safe rstop].
     destruct (is_logic o) eqn:El.
     + destruct (andor_operand (bf_opwrap (c_rev c o)) b ltac:(assumption) ltac:(assumption) Sb (rm (uop_bop o))) as [Sb' _];
         [destruct o; try discriminate; unfold rm; simpl; lia|].
       unfold L_CLOSED. fin o.
     + destruct (operand_ok (bf_opwrap (c_rev c o)) b) with (m := rm (uop_bop o)) (bm := false) as (Sb' & _ & _);
-        try assumption; [rewrite orb_true_iff; right; assumption | unfold rm; lia|].
+        try assumption; [unfold rm; lia|].
       unfold L_CLOSED. fin o.
   - (* UNse *)
     rewrite N3, operand_eq, safe_mkbin by assumption. rewrite N1.
@@ -256,28 +251,28 @@ Proof.
   - (* UNeg *) rewrite Eneg. cbn [mkun uf_paren uf_not safe]. auto.
   - (* UNot *) rewrite Enot. cbn [mkun uf_paren uf_not safe negb andb]. auto.
   - (* UIsNull *) ih H Sa.
-    destruct (operand_ok _ a ltac:(eassumption) ltac:(assumption) Sa 1 false) as (Sa' & Ra & _); [lia|].
+    destruct (operand_ok (wb (c_pred_opwrap c)) a ltac:(rewrite is_wall_wb; assumption) ltac:(assumption) Sa 1 false) as (Sa' & Ra & _); [lia|].
     cbn [safe]. solve_and. apply Nat.ltb_lt. unfold L_IS. lia.
   - (* UIsNotNull *) ih H Sa.
-    destruct (operand_ok _ a ltac:(eassumption) ltac:(assumption) Sa L_NOT false) as (Sa' & Ra & _); [unfold L_NOT; lia|].
-    destruct (operand_ok _ a ltac:(eassumption) ltac:(assumption) Sa 1 false) as (Sa1 & _ & _); [lia|].
+    destruct (operand_ok (wb (c_pred_opwrap c)) a ltac:(rewrite is_wall_wb; assumption) ltac:(assumption) Sa L_NOT false) as (Sa' & Ra & _); [unfold L_NOT; lia|].
+    destruct (operand_ok (wb (c_pred_opwrap c)) a ltac:(rewrite is_wall_wb; assumption) ltac:(assumption) Sa 1 false) as (Sa1 & _ & _); [lia|].
     destruct (c_isnotnull_paren c); cbn [safe negb andb].
     + solve_and. apply Nat.ltb_lt. unfold L_IS. lia.
     + solve_and. apply Nat.ltb_lt. unfold L_IS. lia.
   - (* UIsin *) ih H Sa.
-    destruct (operand_ok _ a ltac:(eassumption) ltac:(assumption) Sa 1 false) as (Sa' & Ra & _); [lia|].
+    destruct (operand_ok (wb (c_pred_opwrap c)) a ltac:(rewrite is_wall_wb; assumption) ltac:(assumption) Sa 1 false) as (Sa' & Ra & _); [lia|].
     cbn [safe]. solve_and. apply Nat.ltb_lt. unfold L_BIL. lia.
   - (* UBetween *) ih H Sa. ih H0 Slo. ih H1 Shi.
-    destruct (operand_ok (c_pred_opwrap c) a) with (m := 1) (bm := false) as (Sa' & Ra & _); try assumption; [lia|].
-    destruct (operand_ok (c_pred_opwrap c) lo) with (m := 1) (bm := true) as (Slo' & _ & _); try assumption; [lia|].
-    destruct (operand_ok (c_pred_opwrap c) hi) with (m := S L_BIL) (bm := false) as (Shi' & _ & _); try assumption;
+    destruct (operand_ok (wb (c_pred_opwrap c)) a) with (m := 1) (bm := false) as (Sa' & Ra & _); try assumption; try (rewrite is_wall_wb; assumption); [lia|].
+    destruct (operand_ok (wb (c_pred_opwrap c)) lo) with (m := 1) (bm := true) as (Slo' & _ & _); try assumption; try (rewrite is_wall_wb; assumption); [lia|].
+    destruct (operand_ok (wb (c_pred_opwrap c)) hi) with (m := S L_BIL) (bm := false) as (Shi' & _ & _); try assumption; try (rewrite is_wall_wb; assumption);
       [unfold L_BIL; lia|].
     cbn [safe]. solve_and. apply Nat.ltb_lt. unfold L_BIL. lia.
   - (* ULike *) ih H Sa.
-    destruct (operand_ok _ a ltac:(eassumption) ltac:(assumption) Sa 1 false) as (Sa' & Ra & _); [lia|].
+    destruct (operand_ok (wb (c_pred_opwrap c)) a ltac:(rewrite is_wall_wb; assumption) ltac:(assumption) Sa 1 false) as (Sa' & Ra & _); [lia|].
     rewrite EL. cbn [safe]. solve_and. apply Nat.ltb_lt. simpl. lia.
   - (* UILike *) ih H Sa.
-    destruct (operand_ok _ a ltac:(eassumption) ltac:(assumption) Sa 1 false) as (Sa' & Ra & _); [lia|].
+    destruct (operand_ok (wb (c_pred_opwrap c)) a ltac:(rewrite is_wall_wb; assumption) ltac:(assumption) Sa 1 false) as (Sa' & Ra & _); [lia|].
     rewrite EIL. cbn [safe]. solve_and. apply Nat.ltb_lt. simpl. lia.
   - (* URlike *) cbn [safe]. solve_and.
   - (* UStartsWith *) cbn [safe]. solve_and.
@@ -290,9 +285,10 @@ Proof.
   - (* UGetItemCol *) destruct a; try discriminate.
     match goal with E : (_ =? _)%Z = true |- _ => apply Z.eqb_eq in E; rewrite E end.
     unfold offset_key. cbn [Z.eqb Z.ltb Z.compare Pos.compare build safe rstop andb]. ih H0 Si.
-    destruct (operand_ok false c0) with (m := 1) (bm := false) as (_ & Ri & _); try assumption; [lia|].
-    unfold wrap in Ri. cbn [andb] in Ri.
+    destruct (operand_ok WNone c0) with (m := 1) (bm := false) as (_ & Ri & _); try assumption; [lia|].
+    cbn [wrap] in Ri.
     solve_and. apply Nat.ltb_lt. simpl. lia.
+  - (* UExpr *) assumption.
   - (* UBElse *) cbn [safeb]. auto.
   - (* UBWhen *) cbn [safeb]. solve_and.
 Qed.
